@@ -848,6 +848,8 @@ class BVS(_ScalarLike):
         """returns (a_node, b_node, result_dtype) following NumPy (NEP 50) promotion."""
         if isinstance(o, BVS):
             rd = np.result_type(self.dtype, o.dtype)
+            if rd.kind == 'f':
+                raise _ToFloat(o)      # e.g. uint64 with int64: NumPy computes in float64 (53-bit mantissa!)
             if rd.kind not in _INT_KINDS:
                 raise EngineError(f'promotion {self.dtype},{o.dtype} -> {rd}')
             return self.cast(rd).n, o.cast(rd).n, rd
@@ -904,11 +906,20 @@ class BVS(_ScalarLike):
         op = sop if (sop and rd.kind == 'i') else uop
         return BVS(ir.bvbin(op, a, b), rd)
 
+    def to_f64(self):
+        return F64(ir.fp_from_bv(self.n, self.signed))
+
     def _arith(self, o, name, uop, sop=None, swap=False):
         try:
             return self._bin(o, uop, sop, swap)
         except _ToReal as t:
             a, b = (t.b, t.a) if t.swap else (t.a, t.b)
+            return getattr(a, name)(b)
+        except _ToFloat as t:
+            CTX.notes.append('mixed uint64/int64 arithmetic is computed in binary64 as NumPy does (integers above 2^53 are rounded)')
+            a, b = self.to_f64(), t.o.to_f64()
+            if swap:
+                a, b = b, a
             return getattr(a, name)(b)
 
     def __add__(self, o):
@@ -1127,6 +1138,11 @@ class _ToReal(Exception):
         self.a, self.b, self.swap = a, b, swap
 
 
+class _ToFloat(Exception):
+    def __init__(self, o):
+        self.o = o
+
+
 def bv_var(name, dtype=np.uint8):
     dt = _dt(dtype)
     return BVS(ir.bvvar(name, _width(dt)), dt)
@@ -1158,7 +1174,13 @@ class F64(_ScalarLike):
             return x
         if isinstance(x, (int, float, np.floating, np.integer)):
             return F64(ir.fconst(float(x)))
+        if isinstance(x, BVS):
+            return x.to_f64()
         return NotImplemented
+
+    def to_int(self, dtype):
+        dt = np.dtype(dtype)
+        return BVS(ir.fp_to_bv(self.n, dt.itemsize * 8, dt.kind == 'i'), dt)
 
     def _b(self, o, op, swap=False):
         o = F64.lift(o)
